@@ -2,5 +2,6 @@ SPECIFICATION Spec
 CONSTANTS
   MaxLen = 200
 INVARIANT PadOK
+INVARIANT RmdPadOK
 INVARIANT EmitReplay
 CHECK_DEADLOCK FALSE
